@@ -32,6 +32,7 @@ type FuncReport struct {
 	CoverPCs    [][]*Term
 	CoverSites  []string // return site of each CoverPCs entry
 	CoverTraces [][]string
+	CoverKinds  []string // "return" or "loop" (a loop back edge) per CoverPCs entry
 	DeadOK      []string // return sites the contract declares unreachable
 	EntryPC     []*Term
 	Probes      map[string]*Term
@@ -181,6 +182,8 @@ func (e *Engine) verifyFunc(fn *ssa.Function, c *Contract, prop string) (rep *Fu
 	}
 	rep.EntryPC = append([]*Term{}, st.pc...)
 	fr := e.newFrame(fn, nil, c)
+	e.topFrame = fr
+	e.backCovers = nil
 	fr.top = true
 	outs := e.execFunc(fr, st, args)
 	// postconditions
@@ -193,6 +196,7 @@ func (e *Engine) verifyFunc(fn *ssa.Function, c *Contract, prop string) (rep *Fu
 		rep.CoverPCs = append(rep.CoverPCs, o.st.pc)
 		rep.CoverSites = append(rep.CoverSites, o.site)
 		rep.CoverTraces = append(rep.CoverTraces, o.st.trace)
+		rep.CoverKinds = append(rep.CoverKinds, "return")
 		var setVals []*Term
 		ovars := map[string]SVal{}
 		for k, v := range vars {
@@ -240,6 +244,14 @@ func (e *Engine) verifyFunc(fn *ssa.Function, c *Contract, prop string) (rep *Fu
 		if c.HasMod {
 			e.frameObligations(c, key, o.st, ovars, pkg)
 		}
+	}
+	// the body of every loop must be reachable too: a contradictory invariant (or a contract applied inside the
+	// body that contradicts it) would make the inv-step obligations hold vacuously while all returns stay reachable
+	for _, o := range e.backCovers {
+		rep.CoverPCs = append(rep.CoverPCs, o.st.pc)
+		rep.CoverSites = append(rep.CoverSites, o.site)
+		rep.CoverTraces = append(rep.CoverTraces, o.st.trace)
+		rep.CoverKinds = append(rep.CoverKinds, "loop")
 	}
 	rep.Obls = e.obls
 	e.finishReport(rep)
